@@ -88,6 +88,12 @@ Section WithEnv.
       else (st, SIZE_MAX) in
     let st2 := seekg st1 (xlat_apply t pos) in
     let '(st3, got) := read st2 (shdr_size (s_cls s)) in
+    if negb (lenN got =? shdr_size (s_cls s)) then
+      (* the entry is not completely inside the stream (C17 fix): header = {}; return false -
+         an empty section, no data request *)
+      let s0 := sec_with_raw enc (with_stream_size s ss) (repeatN 0 (shdr_size (s_cls s))) in
+      Ok (st3, with_load_flags s0 lazy (s_loaded s0) (s_can_load s0), [])
+    else
     let s1 := sec_with_raw enc (with_stream_size s ss) (fill_struct (shdr_bytes enc s) got) in
     let s2 := with_load_flags s1 lazy (s_loaded s1) (s_can_load s1) in
     if lazy || s_loaded s2 then Ok (st3, s2, [])
